@@ -421,9 +421,12 @@ class Assembler:
                             continue
                         q_ += 1
                     inner = [q for q in inner if q not in skip_]
-                    if len(inner) == 2 and s.is_id(inner[0], 'continue') and s.is_p(inner[1], ';') and not s.is_id(kc + 1, 'else'):
+                    if len(inner) >= 2 and s.is_id(inner[-2], 'continue') and s.is_p(inner[-1], ';') and not s.is_id(kc + 1, 'else') \
+                            and (len(inner) == 2 or (s.kind(inner[-3]) == 'p' and s.s(inner[-3]) in (';', '}'))):
+                        # (also `if COND { A; continue; }`: the `continue` is the block's last statement, so `A` stays in the
+                        # then-branch and the rest of the loop body becomes the else-branch)
                         loop_close = self._for_body_stmt_starts[id(fp)][k]
-                        ed.delete(s.t[inner[0]][1], s.t[inner[1]][2])
+                        ed.delete(s.t[inner[-2]][1], s.t[inner[-1]][2])
                         ed.insert(s.t[kc][2], ' else {')
                         ed.insert(s.t[loop_close][1], '} ')
                         self.fired.add('16:continue-to-else-branch')
